@@ -200,6 +200,12 @@ func genNC(prop string, r *sim.Rng) *ncCase {
 	c.Echo = r.Chance(1, 3)
 	if prop == "C08" || prop == "C03" {
 		c.Coalesce = []int{0, 0, 1, 1, 2}[r.Intn(5)]
+		if c.Coalesce == 2 {
+			// two-replies-in-one-read is about late replies; with an echoing transport on top, the echo of
+			// the client's hello can share a buffer with later messages as well (same root cause as F26,
+			// not generated separately)
+			c.Echo = false
+		}
 	}
 	c.Force = r.Chance(1, 3)
 	c.XH = r.Chance(1, 3)
